@@ -172,13 +172,21 @@ pub fn decode_spec(u: &mut Unstructured, mode: u8, tier: Tier) -> Spec {
         _ => {
             let d = u.int_in_range(0usize..=2).unwrap_or(1);
             let base = match tier {
-                Tier::Quick => [99_999usize, 99_999, 149_999, 199_899][u.int_in_range(0usize..=3).unwrap_or(0)],
-                Tier::Thorough => [99_999usize, 199_999, 399_999, 799_999, 149_999, 1_699_999, 199_899, 60_000][u.int_in_range(0usize..=7).unwrap_or(0)],
+                Tier::Quick => [99_999usize, 102_399, 149_999, 199_899, 131_071, 99_999][u.int_in_range(0usize..=5).unwrap_or(0)],
+                Tier::Thorough => [99_999usize, 199_999, 399_999, 799_999, 149_999, 1_699_999, 199_899, 60_000, 102_399, 131_071, 204_799, 409_599][u.int_in_range(0usize..=11).unwrap_or(0)],
             };
             base + d
         }
     };
-    let cfg = Cfg::decode(u);
+    let mut cfg = Cfg::decode(u);
+    if mode != 0 && n % 1024 <= 2 {
+        // sizes that are multiples of the signature store's 1024-pair read chunk:
+        // mostly on disk, with few buckets
+        cfg.offline = cfg.seed % 4 != 0;
+        if cfg.seed % 3 != 0 {
+            cfg.hint = Hint::Other([3usize, 10_000, 50_000][cfg.seed as usize % 3]);
+        }
+    }
     let cfg2 = if mode == 0 && u.int_in_range(0u8..=2).unwrap_or(0) == 0 { Some(Cfg::decode(u)) } else { None };
     Spec { row, n, key_style: u.int_in_range(0u8..=2).unwrap_or(0), val_kind: u.int_in_range(0u8..=5).unwrap_or(0), val_bits: u.int_in_range(1u32..=64).unwrap_or(8), cfg, cfg2 }
 }
@@ -192,7 +200,7 @@ impl Property for C07 {
             // every n in 0..=130 under the default configuration, on every row of the type table
             Segment::enumerated("every-n<=130-default-config", 131 * N_ROWS as u64 * tier.pick(1, 3), &[2]),
             Segment::random("random-configs-n<=3000", tier.pick(3_000, 40_000), &[0], 24, 120),
-            Segment::random("regime-switches", tier.pick(48, 600), &[1], 24, 120),
+            Segment::random("regime-switches", tier.pick(64, 800), &[1], 24, 120),
         ]
     }
     fn watchdog_s(&self) -> u64 {
